@@ -46,6 +46,10 @@ m_functional = z3.Function('m_functional', Asg, Int, Bool)
 m_surjective = z3.Function('m_surjective', Asg, Int, Bool)
 m_injective = z3.Function('m_injective', Asg, Int, Bool)
 m_nondecreasing = z3.Function('m_nondecreasing', Asg, Int, Bool)
+gdom = z3.Function('gdom', Int, Int)                        # domain size of mapping group g
+grng = z3.Function('grng', Int, Int)                        # range size
+rowlits = z3.Function('rowlits', Int, Int, ISeq)            # the variables f(u,v) of domain element u, v over its allowed images
+collits = z3.Function('collits', Int, Int, ISeq)            # the variables f(u,v) of range element v, u over its allowed preimages
 bitlen = z3.Function('bitlen', Int, Int)                    # number of bits of a binary mapping with m images
 rnbrs = z3.Function('rnbrs', Int, Int, ISeq)       # right neighbours of left vertex u in the (abstract) bipartite graph g
 apseq = z3.Function('apseq', Int, Int, ISeq)       # [start, start+1, ..., start+n-1]
